@@ -18,6 +18,7 @@ def build(ctx):
 def bounded(ctx):
     from bounded import purity
     purity.run_all(ctx, ctx.tier)
+    ctx.task('bounded.tasks:split_task', 'rand')
 
 
 def explanation(ctx):
